@@ -51,7 +51,7 @@ Proof.
   exists (make_heap (grow_size st size)), (Node hdr_sz (grow_size st size - hdr_sz) []).
   split; [unfold grow; cbn [heaps]; apply in_or_app; right; left; reflexivity|].
   split; [cbn; left; reflexivity|]. cbn [nsize].
-  unfold grow_size. rewrite factor_integral.
+  rewrite (grow_size_val st size HI Hd). rewrite factor_integral.
   replace (factor_num * Z.max (hsize (last (heaps st) (make_heap 0))) size + 1 - 1)
     with (factor_num * Z.max (hsize (last (heaps st) (make_heap 0))) size) by lia.
   rewrite Z.div_1_r. pose proof factor_ge2. pose proof hdr_le_unit.
